@@ -300,6 +300,80 @@ def _s_single(v):
     return mod.hugr
 
 
+def _s_nonlocal(v):
+    """random nesting in which inner operations use wires of enclosing regions: state-order edges out of
+    LoadConst, Call, LoadFunc and ordinary nodes into nested DFGs, conditionals and loops at several depths"""
+    from hugr import ops, tys, val
+    from hugr.build.function import Module
+    from hugr.std.int import INT_T, DivMod, IntVal
+    from hugr.std.logic import Not
+
+    rng = random.Random(v)
+    mod = Module()
+    decl = mod.declare_function("ext", tys.PolyFuncType([], tys.FunctionType([tys.Bool], [tys.Bool, INT_T])))
+    f = mod.define_function(rng.choice(["main", "f", "名"]), [tys.Bool, INT_T])
+    pool = [(w, t) for w, t in zip(f.inputs(), [tys.Bool, INT_T])]
+
+    def pick(pl, t):
+        c = [w for w, tt in pl if tt == t]
+        return rng.choice(c) if c else None
+
+    def body(b, pl, depth):
+        """`pl` holds every wire visible here (own and enclosing regions)"""
+        for _ in range(rng.randint(1, 4)):
+            k = rng.randrange(8)
+            md = {"m": rng.choice([1, "x", [1, 2], None])} if rng.random() < 0.2 else None
+            if k == 0:
+                pl.append((b.load(rng.choice([val.TRUE, val.FALSE])), tys.Bool))
+            elif k == 1:
+                pl.append((b.load(IntVal(rng.randrange(8), 5)), INT_T))
+            elif k == 2:
+                w = pick(pl, tys.Bool)
+                n = b.call(decl, w)
+                pl.append((n[0], tys.Bool))
+                pl.append((n[1], INT_T))
+            elif k == 3:
+                w = pick(pl, tys.Bool)
+                pl.append((b.add_op(Not, w, metadata=md), tys.Bool))
+            elif k == 4:
+                a, c = pick(pl, INT_T), pick(pl, INT_T)
+                n = b.add(DivMod(a, c), metadata=md)
+                pl.append((n[0], INT_T))
+                if rng.random() < 0.5:
+                    pl.append((n[1], INT_T))
+            elif k == 5 and depth < 3:
+                with b.add_nested() as n:
+                    inner = list(pl)
+                    body(n, inner, depth + 1)
+                    outs = rng.sample(inner, min(len(inner), rng.randint(1, 2)))
+                    n.set_outputs(*[w for w, _ in outs])
+                for i, (_, t) in enumerate(outs):
+                    pl.append((n[i], t))
+            elif k == 6 and depth < 3:
+                lf = b.load_function(decl)
+                with b.add_nested() as n:
+                    x = pick(pl, tys.Bool)
+                    r = n.add(ops.CallIndirect()(lf, x))
+                    n.set_outputs(r[0])
+                pl.append((n[0], tys.Bool))
+            elif k == 7 and depth < 3:
+                c, x = pick(pl, tys.Bool), pick(pl, INT_T)
+                with b.add_if(c, x) as if_:
+                    inner = list(pl) + [(if_.inputs()[0], INT_T)]
+                    body(if_, inner, depth + 1)
+                    if_.set_outputs(pick(inner, INT_T))
+                with if_.add_else() as else_:
+                    else_.set_outputs(else_.inputs()[0])
+                pl.append((else_.conditional_node[0], INT_T))
+
+    body(f, pool, 0)
+    outs = rng.sample(pool, min(len(pool), rng.randint(0, 3)))
+    f.set_outputs(*[w for w, _ in outs])
+    if rng.random() < 0.3:
+        mod.hugr[mod.hugr.root].metadata["name"] = rng.choice(["g", "G 1", "ö"])
+    return mod.hugr
+
+
 SCRIPTS = {
     "order_const": _s_order_const,
     "order_call": _s_order_call,
@@ -311,6 +385,7 @@ SCRIPTS = {
     "static": _s_static,
     "cond_loop": _s_cond_loop,
     "single": _s_single,
+    "nonlocal": _s_nonlocal,
 }
 SCRIPT_VARIANTS = 12
 
@@ -336,11 +411,15 @@ def _palette(p):
 def _config(c):
     from hugr.hugr.render import RenderConfig
 
+    if c["palette"] is None:
+        return None  # `render_dot()` without a configuration
     return RenderConfig(palette=_palette(c["palette"]), qualify_op_name=c["qualify"])
 
 
 def _cfg_sx(c):
     p = c["palette"]
+    if p is None:
+        return [A("none"), False]
     return [[A("custom"), *p[1:]] if isinstance(p, list) else p, bool(c["qualify"])]
 
 
@@ -355,6 +434,7 @@ def _rand_palette(rng):
 def _all_configs(rng):
     cs = [{"palette": p, "qualify": q} for p in NAMED for q in (False, True)]
     cs.append({"palette": _rand_palette(rng), "qualify": rng.random() < 0.5})
+    cs.append({"palette": None, "qualify": False})
     return cs
 
 
@@ -509,7 +589,7 @@ def _eval_hugr(spec):
     _nonprintable(doc, np)
     pl = dumps([[_cfg_sx(c) for c in spec["configs"]], sorted(np), _json_to_sx(doc)])
     fails = _oracle(h, spec, st)
-    return _canon(outs), fails, pl, st
+    return _canon({"outs": outs, "st": st}), fails, pl, st
 
 
 # ----------------------------------------------------------------------------- oracle
@@ -814,9 +894,11 @@ def _first_diff(a, b, path="$"):
 
 
 def cases(rng, tier):
-    n_mod, n_cfg, n_var = {"quick": (300, 2, 3), "thorough": (5000, 7, SCRIPT_VARIANTS)}.get(tier, (20000, 3, SCRIPT_VARIANTS))
+    n_mod, n_cfg, n_var = {"quick": (300, 2, 3), "thorough": (6000, 8, SCRIPT_VARIANTS)}.get(tier, (3000, 3, SCRIPT_VARIANTS))
     # hand-written builder scripts first
     for name in SCRIPTS:
+        if name == "nonlocal":
+            continue
         for v in range(n_var):
             allc = _all_configs(rng)
             cs = allc if tier != "quick" else rng.sample(allc, 3)
@@ -824,6 +906,9 @@ def cases(rng, tier):
     for i in range(n_mod):
         allc = _all_configs(rng)
         cs = allc if n_cfg >= len(allc) else rng.sample(allc, n_cfg)
+        if i % 4 == 0:
+            yield {"kind": "script", "name": "nonlocal", "v": rng.randrange(10**9), "configs": cs}
+            continue
         size = rng.choice([0, 1, 2, 3, 4, 6, 8, 10]) if i % 7 else rng.choice([12, 16])
         yield {"kind": "mod", "seed": rng.randrange(10**9), "size": size, "configs": cs}
 
@@ -848,9 +933,14 @@ def payload(spec):
     return None if pl is None else ("render.run", pl)
 
 
+def _outs(obs):
+    v = json.loads(obs)
+    return v["outs"] if isinstance(v, dict) and "outs" in v else v
+
+
 def compare(spec, impl_obs, model_obs):
     try:
-        return _canon(json.loads(impl_obs)) == _canon(json.loads(model_obs))
+        return _canon(_outs(impl_obs)) == _canon(json.loads(model_obs))
     except ValueError:
         return False
 
@@ -859,7 +949,7 @@ def nontrivial(spec, obs):
     if spec["kind"] in ("dot", "palette"):
         return False
     try:
-        outs = json.loads(obs)
+        outs = _outs(obs)
     except ValueError:
         return False
     if not isinstance(outs, list) or not outs or "error" in outs[0]:
@@ -879,11 +969,13 @@ def stats(spec, obs, counters):
         counters[f"script.{spec['name']}"] += 1
     for c in spec["configs"]:
         p = c["palette"]
-        counters[f"palette.{'custom' if isinstance(p, list) else p}"] += 1
+        counters[f"palette.{'custom' if isinstance(p, list) else 'no-config' if p is None else p}"] += 1
         counters[f"qualify.{c['qualify']}"] += 1
     try:
-        outs = json.loads(obs)
-    except ValueError:
+        outs = _outs(obs)
+        for k, x in json.loads(obs).get("st", {}).items():
+            counters["hugr." + k] += x
+    except (ValueError, AttributeError):
         return
     if not isinstance(outs, list) or not outs:
         return
